@@ -610,6 +610,13 @@ func (o *Orch) report() int {
 	if len(o.Broken) > 0 {
 		return 2
 	}
+	if len(o.Inconcl) >= 20 {
+		// a handful of inconclusive cases on a loaded machine is expected and leaves the
+		// verdict "held on what was observed"; dozens mean the monitor could not observe
+		// what it is there for: that is no verdict at all, not a pass
+		fmt.Printf("BROKEN property=%s %d inconclusive cases: no verdict on this run\n", o.ID, len(o.Inconcl))
+		return 2
+	}
 	_ = os.RemoveAll(o.RunDir)
 	return 0
 }
